@@ -148,7 +148,10 @@ def tlc_trace(module, cfg, trace, strict, timeout=3600, name=None, mem="4g"):
     t0 = time.time()
     rc, out = sh(cmd, timeout=timeout, cwd=md, env=env)
     res = {"rc": rc, "wall_s": round(time.time() - t0, 1), "accepted": False, "rejected_at": None, "states": 0,
-           "invariant": None, "timeout": rc == 124}
+           "invariant": None, "timeout": rc == 124, "deviations": {}}
+    for m in re.finditer(r'"DEVIATION",\s*\{([^}]*)\}', out):
+        for nm in re.findall(r'"([^"]+)"', m.group(1)):
+            res["deviations"][nm] = res["deviations"].get(nm, 0) + 1
     m = re.search(r"(\d+) states generated, (\d+) distinct states found", out)
     if m:
         res["states"] = int(m.group(2))
@@ -193,7 +196,7 @@ def validate_batch(module, cfg, trace, label, max_divergences=25, timeout=3600, 
             cur.append(ln)
     total_runs = len(runs)
     res = {"runs": total_runs, "events": len(lines) - total_runs, "strict_accepted": 0, "divergences": [],
-           "violations": [], "tlc_states": 0, "wall_s": 0.0}
+           "violations": [], "tlc_states": 0, "wall_s": 0.0, "deviations": {}}
     work = os.path.join(WORK, "vb_" + label)
     os.makedirs(work, exist_ok=True)
     remaining = runs
@@ -207,6 +210,8 @@ def validate_batch(module, cfg, trace, label, max_divergences=25, timeout=3600, 
         tv = tlc_trace(module, cfg, f, True, timeout=timeout, name=label + "_s")
         res["wall_s"] += tv["wall_s"]
         res["tlc_states"] += tv["states"]
+        for k, n in tv["deviations"].items():
+            res["deviations"][k] = res["deviations"].get(k, 0) + n
         if tv.get("error") or tv["timeout"]:
             log(tv.get("error", "timeout"))
             raise ToolError("TLC trace validation failed to run (%s)" % label)
@@ -298,8 +303,14 @@ class Verdict:
         self.known = []
         self.findings = [f for f in load_findings().get("known", []) if f.get("property") == pid]
 
+    def deviation(self, name, count, payload=None):
+        """A named deviation action (spec Dev_/flag) was needed to explain `count` runs."""
+        self.violation("deviation=%s" % name, payload or {"deviation": name, "runs": count})
+
     def violation(self, signature, payload):
         """signature: short string identifying what failed (scenario + observation)."""
+        if signature in [s for s, _ in self.violations]:
+            return
         for f in self.findings:
             if re.search(f["signature"], signature):
                 if f["id"] not in [k["id"] for k in self.known]:
